@@ -364,7 +364,8 @@ Section Exec.
           | Some m =>
               if i_emitting m then throw w ExAlreadyEmitting else
               let n := g_size (i_conns m) in
-              let w1 := put_impl w i (impl_with_flags m true (i_dde m)) in
+              (* Signal::emit's local shared_ptr: the Impl is alive for the duration of the call *)
+              let w1 := put_impl w i (impl_with_owner (impl_with_flags m true (i_dde m)) (i_owned m) true) in
               let '(w2, e) := walk w1 i args (seq 0 n) in
               (finish_emit w2 i n, e)
           end
